@@ -209,6 +209,9 @@ def src_name(tool, outcfg):
         return "doc.md"
     if outcfg == "inplace" and tool in SUFFIX:
         return "doc" + SUFFIX[tool] + ".docx"
+    if outcfg == "other_suffix" and tool in SUFFIX:
+        # the working copy of the *other* tool: not this tool's in-place case
+        return "doc" + ("_reviewed" if SUFFIX[tool] == "_redlined" else "_redlined") + ".docx"
     if outcfg == "suffix_inside" and tool in SUFFIX:
         return "doc" + SUFFIX[tool] + "_v2.docx"      # carries the suffix, but not at the end: not the in-place case
     return "doc.docx"
@@ -466,12 +469,26 @@ def base_inputs(seed, index):
     texts = engine_run.texts_of(data)
     batch = editgen.gen_batch(rng, doc, texts, 2, ["replace", "delete", "extend"], comment_p=0.5)
     edits = [(e["target"], e["new"], e.get("comment")) for e in batch]
+    # an echoed, unchanged passage (a no-op edit: counted as applied, occupies its range) plus a change inside it
+    echo = None
+    pvs = {pv.pi: pv for pv in (editgen.ParaView(si, pi, p) for pi, (si, p) in enumerate(sem.all_paragraphs(doc)))}
+    for e in batch:
+        if e["kind"] != "replace":
+            continue
+        pv = pvs[e["pi"]]
+        for k in (8, 5, 3):
+            outer = editgen._range_edit(rng, pv, texts, max(0, e["a"] - k), min(len(pv.acc), e["b"] + k), editgen.WordSource(rng), kind="same")
+            if outer and outer["target"] != e["target"] and outer["in_raw"]:
+                echo = [(outer["target"], outer["target"], None), (e["target"], e["new"], None)]
+                break
+        if echo:
+            break
     flat = [n["id"] for p in sem.iter_paragraphs(doc["body"], expand_vmerge=True) for n in p["nodes"] if n["k"] in ("ins", "del")]
     actions = [("ACCEPT", f"Chg:{flat[0]}", None)] if flat else []
     actions.append(("REJECT", "Chg:99999", None))
     words = texts["raw"].split(" ")
     modified = texts["raw"]
-    return {"docx_hex": data.hex(), "in_doc": doc, "edits": edits, "actions": actions, "modified_text": modified,
+    return {"docx_hex": data.hex(), "in_doc": doc, "edits": edits, "echo_edits": echo, "actions": actions, "modified_text": modified,
             "md_text": "Plain **Markdown** text with " + (edits[0][0] if edits else "nothing") + " inside.\n"}
 
 
@@ -485,7 +502,7 @@ def gen_cases(tier, seed):
             if tool in WRITERS:
                 cfgs += ["explicit_new", "explicit_existing"]
             if tool in SUFFIX:
-                cfgs += ["inplace", "suffix_inside"]
+                cfgs += ["inplace", "suffix_inside", "other_suffix"]
             if tool == "cli_markup":
                 cfgs.append("md_input")
             for outcfg in cfgs:
@@ -498,6 +515,8 @@ def gen_cases(tier, seed):
                     if tool == "cli_apply_text":
                         c["edits"] = []
                     cases.append(c)
+                    if tool in ("apply_structured_edits", "cli_apply_json") and outcfg == "default" and state == "valid" and base.get("echo_edits"):
+                        cases.append(dict(c, edits=base["echo_edits"], outcfg="default", variant="echo"))
                     if tool in ("apply_structured_edits", "manage_review_actions") and state == "valid" and outcfg == "default":
                         cases.append(dict(c, author_ok=False))
                     if tool in ("apply_structured_edits", "cli_apply_json") and state == "valid" and outcfg == "default":
